@@ -25,6 +25,86 @@ func c16(c *Ctx) {
 	// the request that is hashed is built from this call's options only: a merger never adopts an
 	// option's own struct, so one caller's arguments cannot show up in another caller's request
 	ruleFreshMergeTarget(c, "C16.R7", c.P.FuncsInPkg(clientPkg), "the option mergers of the cloud client (ApplyCreateNetworkInterface …)")
+	c16R8(c)
+}
+
+// R8: which elements of a map reach the hashed request does not depend on the iteration order either:
+// a loop over a map that builds a list in a request builder runs to the end (a sort afterwards orders
+// what was collected — it cannot bring back what an early exit left out, and which entries an early
+// exit leaves out differs from call to call).
+func c16R8(c *Ctx) {
+	p := c.P
+	c.Rule("C16.R8", "request builders: a loop that ranges over a map and appends to a list has no break / continue / return (the set of entries that reach the request, not only their order, is the same for the same parameters)")
+	n := 0
+	for _, fn := range c16Builders(c) {
+		info := fn.Info()
+		tainted := orderTainted(fn)
+		ast.Inspect(fn.Decl.Body, func(nd ast.Node) bool {
+			rs, ok := nd.(*ast.RangeStmt)
+			if !ok {
+				return true
+			}
+			if _, isMap := info.TypeOf(rs.X).Underlying().(*types.Map); !isMap {
+				return true
+			}
+			builds := false
+			for _, as := range tainted {
+				if rs.Body.Pos() <= as.Pos() && as.End() <= rs.Body.End() {
+					builds = true
+				}
+			}
+			if !builds {
+				return true
+			}
+			n++
+			var exit ast.Node
+			var walk func(x ast.Node, depth int)
+			walk = func(x ast.Node, depth int) {
+				ast.Inspect(x, func(k ast.Node) bool {
+					switch t := k.(type) {
+					case *ast.FuncLit:
+						return false
+					case *ast.ForStmt, *ast.RangeStmt, *ast.SwitchStmt, *ast.TypeSwitchStmt, *ast.SelectStmt:
+						if k != x {
+							// a break inside belongs to the inner statement; continue (loops excepted), return and labelled jumps do not
+							ast.Inspect(k, func(j ast.Node) bool {
+								switch u := j.(type) {
+								case *ast.FuncLit:
+									return false
+								case *ast.ReturnStmt:
+									exit = u
+								case *ast.BranchStmt:
+									_, innerLoop := k.(*ast.ForStmt)
+									_, innerRange := k.(*ast.RangeStmt)
+									if u.Label != nil || (u.Tok == token.CONTINUE && !innerLoop && !innerRange) {
+										exit = u
+									}
+								}
+								return true
+							})
+							return false
+						}
+					case *ast.ReturnStmt:
+						exit = t
+					case *ast.BranchStmt:
+						if t.Tok == token.BREAK || t.Tok == token.CONTINUE || t.Tok == token.GOTO {
+							exit = t
+						}
+					}
+					return true
+				})
+			}
+			walk(rs.Body, 0)
+			key := fn.Name + ": the list built from " + exprString(rs.X) + " takes every entry"
+			if exit != nil {
+				c.Bad("C16.R8", key, p.Pos(exit), fn.Key(), "for k, v := range m { list = append(list, …) } without an early exit", "the loop can leave entries out; which ones depends on the iteration order of the map")
+			} else {
+				c.OK("C16.R8", key, p.Pos(rs), fn.Key(), "no break / continue / return in the loop")
+			}
+			return true
+		})
+	}
+	c.Floor("C16.R8", "list-building loops over maps in request builders", 1, n)
 }
 
 // orderTainted finds locals of fn that are appended to while ranging over a
